@@ -502,3 +502,147 @@ func TestGovcReplay(t *testing.T) {
 		},
 	}}, harnesses...)
 }
+
+func init() {
+	harnesses = append([]*harness{{
+		name:      "TLS listener on a unix socket replay (ready server context manager, inspector off, connection accepted on a unix-domain listener)",
+		modelFree: true,
+		match: func(o *Obligation) bool {
+			return strings.HasSuffix(o.Func, "mtls.(*serverContextManager).Conn") && (strings.Contains(o.Name, "alwaysTLS") || strings.Contains(o.Name, "inspected"))
+		},
+		run: func(eng *Engine, o *Obligation) *ReplayOutcome {
+			src := `package mtls
+
+import (
+	"fmt"
+	"net"
+	"os"
+	"path/filepath"
+	"testing"
+
+	"mosn.io/mosn/pkg/mtls/crypto/tls"
+	"mosn.io/mosn/pkg/types"
+)
+
+// The failed obligation says: a stream connection other than TCP is served in plaintext although TLS is enabled and the
+// inspector is off. Replay: a server context manager with one ready context and inspector off is handed a connection
+// accepted on a unix-domain listener (MOSN listeners can be configured on unix sockets).
+func TestGovcReplay(t *testing.T) {
+	cfg := &tls.Config{NextProtos: []string{"h2"}}
+	c := &tlsContext{}
+	c.server = types.NewTLSConfigContext(cfg, func(*tls.Config) *types.HashValue { return nil })
+	c.buildMatch(cfg)
+	mng := &serverContextManager{providers: []types.TLSProvider{&staticProvider{tlsContext: c}}}
+	mng.config = &tls.Config{GetConfigForClient: mng.GetConfigForClient}
+	if !mng.Enabled() {
+		fmt.Println("REPLAY-INCONCLUSIVE the manager is not enabled")
+		return
+	}
+	dir, _ := os.MkdirTemp("", "govc")
+	defer os.RemoveAll(dir)
+	path := filepath.Join(dir, "l.sock")
+	l, err := net.Listen("unix", path)
+	if err != nil {
+		fmt.Println("REPLAY-INCONCLUSIVE listen:", err)
+		return
+	}
+	defer l.Close()
+	go func() {
+		if cl, err := net.Dial("unix", path); err == nil {
+			defer cl.Close()
+			buf := make([]byte, 1)
+			cl.Read(buf)
+		}
+	}()
+	raw, err := l.Accept()
+	if err != nil {
+		fmt.Println("REPLAY-INCONCLUSIVE accept:", err)
+		return
+	}
+	defer raw.Close()
+	got, err := mng.Conn(raw)
+	if err != nil {
+		fmt.Println("REPLAY-INCONCLUSIVE Conn:", err)
+		return
+	}
+	if _, isTLS := got.(*TLSConn); !isTLS {
+		fmt.Printf("REPLAY-CONFIRMED TLS is enabled (a ready context) and the inspector is off, but the connection accepted on the unix-domain listener is served as it is (%T): plaintext on a TLS listener\n", got)
+		return
+	}
+	fmt.Println("REPLAY-NOT-REPRODUCED the unix-domain connection is wrapped in TLS")
+}
+`
+			out, _ := runOverlayTest("pkg/mtls", src, "^TestGovcReplay$")
+			return outcomeFromOutput(src, out)
+		},
+	}}, harnesses...)
+}
+
+func init() {
+	harnesses = append([]*harness{{
+		name:      "upstream TLS over a unix socket replay (enabled client context manager, connection dialled to a unix-domain address)",
+		modelFree: true,
+		match: func(o *Obligation) bool {
+			return strings.HasSuffix(o.Func, "mtls.(*clientContextManager).Conn") && strings.Contains(o.Name, "protectedOrRefused")
+		},
+		run: func(eng *Engine, o *Obligation) *ReplayOutcome {
+			src := `package mtls
+
+import (
+	"fmt"
+	"net"
+	"os"
+	"path/filepath"
+	"testing"
+
+	"mosn.io/mosn/pkg/mtls/crypto/tls"
+	"mosn.io/mosn/pkg/types"
+)
+
+// The failed obligation says: with the cluster's TLS enabled, an upstream stream connection other than TCP is handed back
+// raw. Replay: a client context manager with a ready provider is handed a connection dialled to a unix-domain address
+// (the peer speaks no TLS at all): the answer must be an error or a TLS connection, not the raw connection.
+func TestGovcReplay(t *testing.T) {
+	cfg := &tls.Config{InsecureSkipVerify: true}
+	c := &tlsContext{}
+	c.client = types.NewTLSConfigContext(cfg, func(*tls.Config) *types.HashValue { return nil })
+	mng := &clientContextManager{provider: &staticProvider{tlsContext: c}}
+	if !mng.Enabled() {
+		fmt.Println("REPLAY-INCONCLUSIVE the manager is not enabled")
+		return
+	}
+	dir, _ := os.MkdirTemp("", "govc")
+	defer os.RemoveAll(dir)
+	path := filepath.Join(dir, "u.sock")
+	l, err := net.Listen("unix", path)
+	if err != nil {
+		fmt.Println("REPLAY-INCONCLUSIVE listen:", err)
+		return
+	}
+	defer l.Close()
+	go func() {
+		if sc, err := l.Accept(); err == nil {
+			sc.Close() // a peer that speaks no TLS
+		}
+	}()
+	raw, err := net.Dial("unix", path)
+	if err != nil {
+		fmt.Println("REPLAY-INCONCLUSIVE dial:", err)
+		return
+	}
+	defer raw.Close()
+	got, err := mng.Conn(raw)
+	if err == nil {
+		if _, isTLS := got.(*TLSConn); !isTLS {
+			fmt.Printf("REPLAY-CONFIRMED the cluster's TLS is enabled, but the upstream connection over a unix-domain socket is handed back as it is (%T, no error): requests go out in plaintext to an unverified peer\n", got)
+			return
+		}
+	}
+	fmt.Println("REPLAY-NOT-REPRODUCED the connection was wrapped in TLS or refused:", err)
+}
+`
+			out, _ := runOverlayTest("pkg/mtls", src, "^TestGovcReplay$")
+			return outcomeFromOutput(src, out)
+		},
+	}}, harnesses...)
+}
